@@ -178,6 +178,7 @@ def one_case(ctx, table, spec, ns, dll, compile_it):
             return "sml row %d is %r, the table says %r" % (k, got_rows[k:k + 1], rows[k:k + 1]), "sml-rows"
         if got_hooks != hooks:
             return "entry/exit hook rows %r, the table's states need %r" % (got_hooks, hooks), "sml-hooks"
+        smlib.decl_correspondence(ctx, "cpp", files, table, spec)
         r = check_decls(table, spec, files)
         if r:
             return r, "cpp-declarations"
@@ -237,6 +238,7 @@ def run(ctx):
     ctx.case(("known-probe", "cpp-event-named-Event"))
     if fail:
         ctx.violation(fail, {"table": ev_table, "iface": {"structs": [], "usertags": {}}, "ns": "NS", "dll": "", "finding_key": "cpp-event-named-Event"})
+    smlib.ttmodel_batch(ctx, ctx.budget(400, 5000))   # the table model this property's model is built on
     n = ctx.budget(250, 1500)
     every = 5 if ctx.quick and not ctx.broken else 3
     for i in range(n):
